@@ -132,6 +132,7 @@ type splitCase struct {
 	term   T
 	lo, hi int64
 	name   string
+	kind   string
 }
 
 type deferred struct {
@@ -182,7 +183,9 @@ type FX struct {
 	rngPos    T
 	rngPos0   T
 	rngReads  int
-	domain    T
+	domain    T            // unlabelled domain clauses
+	domainFor map[string]T // domain clauses that apply to the ensures clause of that label only
+	domainAll T            // all of them (invariants, asserts)
 	safeClause bool
 	failN     int
 	chainCache map[string]chainRes
@@ -288,8 +291,15 @@ func functionalKind(kind string) bool {
 }
 
 func (fx *FX) oblige(kind, label string, guard, goal T, pos token.Pos, src string) {
-	if functionalKind(kind) && fx.domain.S != "" && fx.domain.S != "true" && !fx.safeClause {
-		guard = and(guard, fx.domain)
+	if functionalKind(kind) && fx.domainAll.S != "" && !fx.safeClause {
+		if kind == "post" {
+			guard = and(guard, fx.domain)
+			if d, ok := fx.domainFor[label]; ok {
+				guard = and(guard, d)
+			}
+		} else {
+			guard = and(guard, fx.domainAll)
+		}
 	}
 	if goal.S == "true" || guard.S == "false" {
 		return
@@ -329,7 +339,9 @@ func (fx *FX) oblige(kind, label string, guard, goal T, pos token.Pos, src strin
 	}
 	if kind != "split-exhaustive" {
 		for _, sp := range fx.fnSplits {
-			addSplit(sp)
+			if sp.kind == "" || sp.kind == kind {
+				addSplit(sp)
+			}
 		}
 		if li != nil {
 			for _, sp := range li.splits {
@@ -858,10 +870,25 @@ func (fx *FX) run() {
 			fx.assume(tTrue, t)
 		}
 		fx.domain = tTrue
+		fx.domainFor = map[string]T{}
 		for _, dcl := range fx.fc.Domain {
-			fx.domain = and(fx.domain, fx.hypBool(env, dcl.E))
+			t := fx.hypBool(env, dcl.E)
+			if dcl.Label == "" {
+				fx.domain = and(fx.domain, t)
+			} else {
+				old, ok := fx.domainFor[dcl.Label]
+				if !ok {
+					old = tTrue
+				}
+				fx.domainFor[dcl.Label] = and(old, t)
+			}
 		}
 		fx.domain = fx.def("domain", fx.domain)
+		fx.domainAll = fx.domain
+		for _, t := range fx.domainFor {
+			fx.domainAll = and(fx.domainAll, t)
+		}
+		fx.domainAll = fx.def("domainall", fx.domainAll)
 		for _, m := range fx.fc.Modifies {
 			v := fx.evalExpr(env, m)
 			switch x := v.(type) {
@@ -879,7 +906,7 @@ func (fx *FX) run() {
 		for _, sp := range fx.fc.Splits {
 			t := fx.evalInt(env, sp.E)
 			t = fx.def("split", t)
-			sc := splitCase{term: t, lo: sp.Lo, hi: sp.Hi, name: exprName(sp.E)}
+			sc := splitCase{term: t, lo: sp.Lo, hi: sp.Hi, name: exprName(sp.E), kind: sp.Kind}
 			fx.curBlock = nil
 			fx.oblige("split-exhaustive", sc.name, tTrue, and(le(num(sp.Lo), t), le(t, num(sp.Hi))), token.NoPos, sp.Src)
 			fx.fnSplits = append(fx.fnSplits, sc)
@@ -1371,8 +1398,8 @@ func (fx *FX) enterLoop(li *loopInfo, h *ssa.BasicBlock, conds []T, sts []*State
 	if li.lc != nil {
 		for _, c := range li.lc.Inv {
 			g := st.PC
-			if !c.Safe && fx.domain.S != "" {
-				g = and(g, fx.domain)
+			if !c.Safe && fx.domainAll.S != "" {
+				g = and(g, fx.domainAll)
 			}
 			fx.assume(g, fx.hypBool(env, c.E))
 		}
